@@ -951,9 +951,18 @@ func (x *c03Run) relayBlockToB(orig *types.Block, m *C03Mut) {
 
 // proposeOnB lets a proposer that shares B's chain state and B's mempool content
 // build the block for timestamp ts on parent.
-func (x *c03Run) proposeOnB(parent bc.Hash, ts uint64) *ProposeResult {
+func (x *c03Run) proposeOnB(parent bc.Hash, ts uint64) (res *ProposeResult) {
 	w := x.w
-	res := &ProposeResult{}
+	res = &ProposeResult{}
+	defer func() {
+		// A node that cannot start from a copy of B's disk (e.g. after B refused a block whose
+		// verification links name an unknown source, which leaves finality state behind) is a
+		// restart problem, not an identity problem: contained and counted here.
+		if p := recover(); p != nil {
+			x.r.Count("contained.bside_node_start_panic", 1)
+			res = nil
+		}
+	}()
 	n, err := w.StartNode(fmt.Sprintf("bside%d", w.nodes), x.b.Disk.Clone(), w.Keys[0])
 	if err != nil || n.Best() != parent {
 		return nil
